@@ -413,6 +413,21 @@ theorem parse_or_log_never_raises (c : Cfg) (hc : ParamsVE c) (s : Str) :
     have := parse_total c hc s e he
     simp [this]
 
+/-- **C11, the consumer of the logging variant.**  The link loop of
+`ProcessingRule._process_scrape_info` never raises on any list of scraped links: unparseable
+links are skipped, the others kept (at most one result per link). -/
+theorem scrape_parse_never_raises (c : Cfg) (hc : ParamsVE c) :
+    ∀ links : List Str, ∃ r, scrapeParse c links = .ok r ∧ r.length ≤ links.length
+  | [] => ⟨[], rfl, Nat.le_refl _⟩
+  | l :: ls => by
+    obtain ⟨r, hr, hlen⟩ := scrape_parse_never_raises c hc ls
+    obtain ⟨o, ho⟩ := parse_or_log_never_raises c hc l
+    unfold scrapeParse
+    rw [ho]
+    cases o with
+    | none => exact ⟨r, by simpa using hr, by simp; omega⟩
+    | some i => exact ⟨i :: r, by simp [hr], by simp; omega⟩
+
 /-- **C11, joining.**  Relative to the stdlib join raising only `ValueError`:
 `wpull.url.urljoin` raises only `ValueError`, and `urljoin_safe` never raises. -/
 theorem urljoin_only_valueerror (stdJoin : Str → Str → Except PyExc Str)
@@ -506,6 +521,8 @@ example : parse cfg0 [104, 116, 116, 112, 58, 47, 47, 0xdc80, 64, 104, 47] = .er
 -- `mailto:x` (no network scheme): every accessor returns
 example : ((parse cfg0 [109, 97, 105, 108, 116, 111, 58, 120]).bind URLInfo.queryMap) = .ok [([], [[]])] := by decide
 example : parseOrLog cfg0 [58] = .ok none := by decide
+-- a junk link between two good ones is skipped: `["h.x", ":", "mailto:x"]` keeps two results
+example : (scrapeParse cfg0 [[104, 46, 120], [58], [109, 97, 105, 108, 116, 111, 58, 120]]).map List.length = .ok 2 := by decide
 example : urljoinSafe (fun _ _ => .error .ValueError) [104] [47, 47, 120] = .ok none := by decide
 
 end Wpull.Url
